@@ -202,6 +202,8 @@ class Report:
                 path = self.replay_file(key, dict(property=self.prop, obligation=key, bounded=True, failure=fl))
                 self.violations.append((path, ""))
         for c in self.canaries:
+            if c.get("error"):
+                continue      # the mutated text is no longer in the source (the code changed): canary skipped
             if not c.get("killed"):
                 self.errors.append(("canary:" + c["name"], "a mutant that must fail was accepted: checker broken"))
         wall = time.time() - self.t0
